@@ -134,12 +134,6 @@ Proof.
   destruct (p a); [now right|]. destruct H as [<-|H]; [now left|right; now apply IH].
 Qed.
 
-Lemma remove_last_incl : forall (A : Type) (p : A -> bool) l x, In x (remove_last p l) -> In x l.
-Proof.
-  intros A p l x H. unfold remove_last in H. apply in_rev in H.
-  apply remove_first_incl in H. now apply in_rev.
-Qed.
-
 Section FromRemote.
   Variable engine_codecs : list codec.   (* the negotiated list *)
   Variable remote : list codec.          (* the offered section *)
@@ -169,7 +163,7 @@ Section FromRemote.
       + destruct (fuzzy_search rc left) as [mc m] eqn:Hf.
         destruct (mt_eqb m want) eqn:Hm.
         * apply (IH _ _ _ _ _ _ _ _ Hw H Hrp); auto.
-          -- intros x Hx. apply Hl. now apply remove_last_incl in Hx.
+          -- intros x Hx. apply Hl. now apply remove_first_incl in Hx.
           -- intros x [<-|Hx]; [|now apply Ha].
              assert (Hne : m <> MNone).
              { intros ->. destruct want; try discriminate. now apply Hw. }
